@@ -47,6 +47,10 @@ CHECKS = {
          "Seeded search: the real QueryDeviceTypes / QueryGroups / SetGroups generators are stepped against executable IEC 62386-102 gear models (device-type enumeration state machine, groups, send-twice acceptance, collisions between units on one address) with answer loss / framing errors at seeded command indices and adversarial, endlessly repeating answer streams; oracle: returned data equals the model's state (or DALISequenceError once disturbed), termination within a step cap, final group membership of every addressed unit, untouched bystanders, minimal number of changes for readable destinations.",
          "Trusted base: gear model of DESIGN.md appendix A.1 (sim/busim.py), written independently of dali/tests/fakes.py.",
          "deterministic co-simulation of sequence and bus units with fault injection on answers (seeded scenarios)", "4"),
+ "C14": ("busim", "exploration",
+         "Seeded search: SetDT8ColourValueTc / SetDT8TcLimit / QueryDT8ColourValue stepped against IEC 62386-209 Tc unit models with stale DTR contents; quick walks through all 65536 mirek values once (edges over-weighted), all four limit selectors, all query selectors against stored values incl. MASK, silence or framing error on either answer byte, short/int/group/broadcast destinations with bystanders, out-of-range and wrong-type arguments; oracle: the unit's Tc / limit registers after the sequence, Activate applied, bystanders untouched, query result exact or None, bad arguments rejected before the first command.",
+         "Trusted base: Tc unit model of DESIGN.md appendix A.1 (sim/busim.py).",
+         "deterministic co-simulation of sequence and DT8 unit models with answer faults", "4"),
 }
 
 PLANNED = {}
